@@ -93,6 +93,22 @@ def _install_worker_patches():
     # paths with "proxy intolerance").  The harnesses want the real callee executed, always.
     core.ShortCircuitingContext.make_interceptor = lambda self, original: original
 
+    # `set.intersection(*sets)` (unbound descriptor, used by type_evaluation.unite_varmaps) rejects
+    # CrossHair's set proxies with a TypeError that does not exist outside tracing: route the unbound
+    # call to the bound method of the first operand.
+    def _set_intersection(first, *rest):
+        return first.intersection(*rest)
+
+    def _set_union(first, *rest):
+        return first.union(*rest)
+
+    try:
+        core.register_patch(set.intersection, _set_intersection)
+        core.register_patch(set.union, _set_union)
+    except Exception:  # noqa
+        core._PATCH_REGISTRATIONS[set.intersection] = _set_intersection
+        core._PATCH_REGISTRATIONS[set.union] = _set_union
+
     import z3
 
     _check = z3.Solver.check
